@@ -1,0 +1,18 @@
+//go:build !verif
+
+package rux
+
+// Verification seams, disabled build: every function below is an identity or
+// a no-op that the compiler inlines away. See verif_on.go for the enabled side.
+
+func verifYield(string) {}
+
+func verifPoolGet(_ *Router, c *Context) *Context { return c }
+
+func verifPoolPut(_ *Router, c *Context) *Context { return c }
+
+func verifOrder(_ string, items []string) []string { return items }
+
+func verifActionBatches(m map[string][]string) []map[string][]string {
+	return []map[string][]string{m}
+}
